@@ -82,12 +82,13 @@ fn heap_worker(ctx: &WorkerCtx, footprint: bool) -> Report {
     // (K variables, live-block bound, rich alphabet, padded): each configuration is searched to a
     // fixpoint; "padded" puts identity variables in front so that the window straddles the
     // register/spill boundary (x86-64: 5, AArch64: 12; RV64 has no spills: 6)
-    let configs: Vec<(usize, usize, bool, bool)> = if ctx.tier.thorough() {
-        vec![(2, 3, false, false), (3, 2, false, false), (2, 3, false, true), (3, 2, false, true), (2, 4, false, false), (2, 3, true, false), (3, 3, false, false), (4, 2, false, false), (2, 4, false, true)]
+    // alphabet 0 = lists/boxes/closures, 1 = rich, 2 = records (two-block objects, no nesting)
+    let configs: Vec<(usize, usize, u8, bool)> = if ctx.tier.thorough() {
+        vec![(2, 3, 0, false), (3, 2, 0, false), (2, 3, 0, true), (4, 3, 2, false), (4, 3, 2, true), (3, 2, 0, true), (2, 4, 0, false), (2, 3, 1, false), (3, 3, 0, false), (4, 2, 0, false), (2, 4, 0, true), (5, 4, 2, true)]
     } else {
-        vec![(2, 3, false, false), (3, 2, false, false), (2, 3, false, true)]
+        vec![(2, 3, 0, false), (3, 2, 0, false), (2, 3, 0, true), (4, 2, 2, false), (4, 2, 2, true)]
     };
-    let mut tasks: Vec<(Arch, (usize, usize, bool, usize))> = Vec::new();
+    let mut tasks: Vec<(Arch, (usize, usize, u8, usize))> = Vec::new();
     for (k, live, rich, padded) in &configs {
         for a in archs {
             let pad = if !*padded { 0 } else { match a { Arch::X86 => 5, Arch::A64 => 12, Arch::Rv64 => 6 } };
@@ -101,6 +102,12 @@ fn heap_worker(ctx: &WorkerCtx, footprint: bool) -> Report {
         if ti as u64 % n != ctx.shard {
             continue;
         }
+        // debugging aid: VERIF_BFS_ONLY=x86_64,5,4,2,5 runs a single configuration
+        if let Ok(only) = std::env::var("VERIF_BFS_ONLY") {
+            if only != format!("{},{k},{live},{rich},{pad}", arch.name()) {
+                continue;
+            }
+        }
         let cap = if ctx.tier.thorough() { 12_000_000u64 } else { 1_000_000u64 };
         let out = heapbfs::search(arch, k, live, rich, pad, cap, ctx, &mut rep);
         rep.count("states", out.states);
@@ -110,7 +117,7 @@ fn heap_worker(ctx: &WorkerCtx, footprint: bool) -> Report {
         rep.count("cases", out.transitions);
         rep.distinct.push(hash64(&(arch.name(), k, live, rich, pad, out.states)));
         rep.notes.push(format!(
-            "BFS {} K={k} live<={live} rich-alphabet={rich} pad={pad}: {} canonical states, {} transitions, depth {}, fixpoint reached: {}",
+            "BFS {} K={k} live<={live} alphabet={rich} pad={pad}: {} canonical states, {} transitions, depth {}, fixpoint reached: {}",
             arch.name(), out.states, out.transitions, out.depth, out.fixpoint
         ));
         if out.fixpoint {
